@@ -306,8 +306,27 @@ def pb_jobs(tier):
     return jobs, bounds
 
 
+def shrink_jobs(tier):
+    L = 3 if tier == "quick" else 5
+    kinds = [("HP", {"inputLen": 2, "hashBits": 1}), ("DHP", {"inputLen": 2, "inputLen2": 3, "hashBits": 1}), ("BUP", {"inputLen": 2, "hashBits": 1, "bucketSize": 2}),
+             ("BUP", {"inputLen": 2, "hashBits": 1, "bucketSize": 3})]
+    if tier != "quick":
+        kinds += [("BHP", {"inputLen": 3, "hashBits": 1}), ("BDHP", {"inputLen": 2, "inputLen2": 4, "hashBits": 1}), ("HP", {"inputLen": 3, "hashBits": 2})]
+    jobs = []
+    for kind, kp in kinds:
+        tag = "-".join("%s%d" % (k[0] + k[-1], v) for k, v in kp.items())
+        for ld in range(L + 1):
+            for w in range(ld + 1):
+                jobs.append(J("shrink%s-%s-ld%d-w%d" % (kind, tag, ld, w), "zzH_shrink" + kind, params=dict(kp, L=L, ld=ld, w=w), uf_mul=True))
+    return jobs, {"Shrink of the parsers (re-basing of the search structures)": "arbitrary parser state with len(Data) 0..%d, arbitrary tables / buckets, ShrinkSize symbolic; "
+                  "Shrink, then one Parse checked like C01-C03; kinds %s" % (L, [k + str(p) for k, p in kinds])}
+
+
 def spec_C15(tier):
     jobs, bounds = pb_jobs(tier)
+    j, b = shrink_jobs(tier)
+    jobs += j
+    bounds.update(b)
     return {"jobs": jobs, "bounds": bounds,
             "assumptions": ["pre-state: 0<=W<=len(Data)<=BufferSize, 0<=ShrinkSize<BufferSize (what Verify accepts), Off>=0, cap(Data)>=len(Data)+7 unless the buffer is empty "
                             "(re-asserted on every post-state, so inductive)", "io.Reader contract: k <= len(p) and (k >= 1 or err != nil)",
@@ -515,7 +534,7 @@ def spec_C11(tier):
 
 def spec_C12(tier):
     jobs, bounds = sap_jobs(tier, kinds=("gsap",))
-    j, b = kernel_jobs(tier, ["lcp"])
+    j, b = kernel_jobs(tier, ["lcp", "bitset"])
     jobs += j
     bounds.update(b)
     return {"jobs": jobs, "bounds": bounds, "assumptions": SAP_ASSUME,
@@ -563,8 +582,10 @@ def spec_C13(tier):
             for pre in (0, 2, 3):
                 jobs.append(J("reset%s-bin-%s-pre%d" % (kind, tag, pre), "zzH_reset" + kind,
                               params=dict(cp, N=NB, k=NB // 2 + (1 if pre == 3 else 0), pre=pre, mode=0, alpha=2, preFlags=pf), stubs=SAP_STUBS))
+    jk, bk = kernel_jobs(tier, ["bitset"])
+    jobs += jk
     return {"jobs": jobs,
-            "bounds": {"hash parsers": "used parser = ARBITRARY state (0 or 3 buffered bytes with arbitrary margin, every table entry an arbitrary uint32 pair: whatever it processed before); "
+            "bounds": {"bitset kernel": bk["bitset kernel"], "hash parsers": "used parser = ARBITRARY state (0 or 3 buffered bytes with arbitrary margin, every table entry an arbitrary uint32 pair: whatever it processed before); "
                                        "then Reset(data with margin) / Reset(data without margin, copied) / Reset(nil)+Write with %d arbitrary bytes; then lockstep Parse to ErrEmptyBuffer "
                                        "with symbolic flags against a new parser; BlockSize 2 and %d, BufferSize %d and %d, WindowSize 3 and 64; variants whose first call after the Reset is Parse(nil) and that "
                                        "write 3 more bytes after the first drain" % (N, N, N, N + 3),
@@ -588,12 +609,19 @@ def kernel_jobs(tier, names):
         if nm in ("lcp", "lcs"):
             for la in range(n + 1):
                 jobs.append(J("%s-n%d-la%d" % (nm, n, la), "zzH_" + nm, params={"n": n, "la": la}))
+        elif nm == "bitset":
+            for n1 in (1, 2):
+                for n2 in (1, 2) if tier == "quick" else (1, 2, 3):
+                    jobs.append(J("bitset-%d-%d" % (n1, n2), "zzH_bitset", params={"n1": n1, "n2": n2}, no_phi_conc=True))
         elif nm == "matchLen":
             for la in range(n + 1):
                 jobs.append(J("%s-n%d-la%d" % (nm, n, la), "zzH_" + nm, pkg="suffix", params={"n": n, "la": la}))
         else:
             jobs.append(J(nm, "zzH_" + nm))
-    return jobs, {"kernels": "%s against three-line references for all byte values and every pair of slice lengths 0..%d" % (", ".join(names), n)}
+    b = {"kernels": "%s against three-line references for all byte values and every pair of slice lengths 0..%d" % (", ".join(x for x in names if x != "bitset"), n)}
+    if "bitset" in names:
+        b["bitset kernel"] = "1..2 inserts, clear, 1..%d inserts at arbitrary positions below 192 (three words), then memberBefore/memberAfter at an arbitrary position, against a set model" % (2 if tier == "quick" else 3)
+    return jobs, b
 
 
 def run_jobs(tier):
@@ -695,6 +723,9 @@ def spec_C16(tier):
     j2, b2 = parse_jobs(tier, dl=1)
     jobs += j2
     bounds["behaviour: hash parsers"] = b2
+    j4, b4 = shrink_jobs(tier)
+    jobs += j4
+    bounds.update(b4)
     j3, b3 = sap_jobs(tier, lite=True) if tier != "quick" else sap_jobs(tier, scripts=(0, 2, 4), lite=True)
     jobs += j3
     bounds["behaviour: GSAP/OSAP"] = b3
